@@ -29,7 +29,11 @@ static Ctx C;
 // the constructor forgets then has a defined, unfavourable value. The pattern is chosen per case from the reset line (0x00 / 0xA5 /
 // 0xBE), so a replay reproduces it; code without uninitialised reads cannot depend on it (the model has no such input).
 static unsigned char g_fill = 0xBE;
+#ifdef N2K_VERIF_MEMCHECK   // build that runs under valgrind memcheck: leave fresh memory uninitialised, so that memcheck can see a read of it
+static void *filledNew(size_t n) { void *p = malloc(n ? n : 1); if (!p) abort(); (void)g_fill; return p; }
+#else
 static void *filledNew(size_t n) { void *p = malloc(n ? n : 1); if (!p) abort(); memset(p, g_fill, n); return p; }
+#endif
 void *operator new(size_t n) { return filledNew(n); }
 void *operator new[](size_t n) { return filledNew(n); }
 void operator delete(void *p) noexcept { free(p); }
